@@ -69,7 +69,9 @@ CLAIMED = {
              "C09_writeable - the writeable flag is opened only by a successful parser call while the active stream is the role's final one (or "
              "at construction for roles whose first stream is final) and never closed; C09_bodies_in_order - over a whole connection of the "
              "one-outstanding client, handler invocation i starts with request i and the content still to come of EVERY input stream (the K / F "
-             "the trace law reads from) is exactly that stream's content in the records sent for request i, nothing of another request. "
+             "the trace law reads from) is exactly that stream's content in the records sent for request i, nothing of another request; "
+             "C09_connection_reads - end to end: at every handler invocation of such a connection the trace law (hw_post) holds for the script that "
+             "runs, with exactly those contents. "
              "Tie: differential execution of handler scripts "
              "(all ops, buffer sizes 0..n) over cutting/Pending transports with mid-stream management records.",
         design="6/C09", technique="Coq proof (conservation record acct over poll_input / await_input / run_handler; trace law for stream switches; gate lemmas) + differential execution of scripted handlers",
@@ -246,7 +248,7 @@ CLAIMED = {
              "independent log-decoding oracle. Findings: F3 (leftover filling the buffer => connection dropped despite KeepConn, /repo fd29a7b) "
              "and F4 (a transport error of kind ConnectionAborted taken for a client abort => reuse after an I/O error, /repo b370518), both "
              "repaired; replays in corpus/C07, corpus/C12 run first. Partial as to the runtime: executor/waker protocol, rustc's async lowering, "
-             "futures-util select/Mutex are modelled by contract. WHOLE-CONNECTION LOG: C07_connection_log - for every client, transport (faults included) and handler scripts the handler invocations are chained in the transport log and each one whose close completed is answered by exactly [parser replies][empty Stdout, empty Stderr if writeable][ONE EndRequest with the invocation's status and the id of the request the handler saw], written after everything the handler wrote and before anything of the next request (ghost log run_loop_log, C07_log_is_ghost).",
+             "futures-util select/Mutex are modelled by contract. WHOLE-CONNECTION LOG: C07_connection_log - for every client, transport (faults included) and handler scripts the handler invocations are chained in the transport log and each one whose close completed is answered by exactly [parser replies][empty Stdout, empty Stderr if writeable][ONE EndRequest with the invocation's status and the id of the request the handler saw], written after everything the handler wrote and before anything of the next request (ghost log run_loop_log, C07_log_is_ghost). REUSE: C07_reuse_is_invisible - what invocation i of a connection carrying k requests starts with and can read (request, selected stream, content to come of every input stream) equals what the single invocation of a fresh connection carrying only request i starts with and can read.",
         design="6/C07, 13.3", technique="Coq proof on an executable connection model (parse_request as a read schedule composed with the C01 theorem; write path, epilogue, reuse decision) + differential execution of scripted connections on a deterministic executor with log-decoding oracle",
         note="the composition 'k requests in sequence' is by the loop's shape and correspondence, not one theorem; single task; handlers await each I/O op to completion."),
     "C10": dict(
